@@ -300,6 +300,10 @@ struct RunResult {
     dcep_label_ok: Option<bool>,
     ans_dc_ok: Option<(bool, bool, bool)>,   // answerer-created in-band channel: (announced with same id, off->ans, ans->off)
     diag: Option<String>,
+    /// data points only, read as soon as both ends report Connected: does each end hold an SCTP transport?
+    /// (offerer, answerer). start_dtls creates it before Connected is reported and only close() drops it, so
+    /// this is a fact about the state, not about elapsed time.
+    sctp_present: Option<(bool, bool)>,
     rtp_ok: BTreeMap<String, (bool, bool)>,        // kind -> (off->ans, ans->off)
     off: SideObs,
     ans: SideObs,
@@ -532,6 +536,9 @@ async fn run_point(p: Point, tmo: &Timeouts) -> RunResult {
     mark!("connect wait over");
     if r.connected {
         r.stage = "connected".into();
+        if p.has_data() {
+            r.sctp_present = Some((off.sctp_diagnostic_info().is_some(), ans.sctp_diagnostic_info().is_some()));
+        }
         if let Some(dc_off) = &dcep_off {
             // the answerer's PeerConnection announces the in-band channel
             let t1 = Instant::now();
@@ -706,6 +713,13 @@ fn oracle(p: &Point, r: &RunResult) -> (Vec<String>, Vec<String>) {
         }
     }
     if p.mode == 2 && (r.off.keys.is_some() || r.ans.keys.is_some()) { logic.push("plain RTP mode installed an SRTP session".into()); }
+    if let Some((o, a)) = r.sctp_present {
+        // both descriptions carry m=application and the end reports Connected: without an SCTP transport no data
+        // channel can ever open (C10-F5). A state fact, deterministic once observed: never retried away.
+        for (who, have) in [("offerer", o), ("answerer", a)] {
+            if !have { logic.push(format!("{who} reports Connected with m=application negotiated but {NO_SCTP}")); }
+        }
+    }
     if r.connected {
         if let Some((a, b)) = r.data_ok {
             if r.dcep_label_ok == Some(false) { runtime.push("in-band data channel announced with a different label / stream id".into()); }
@@ -726,6 +740,11 @@ fn oracle(p: &Point, r: &RunResult) -> (Vec<String>, Vec<String>) {
     }
     (logic, runtime)
 }
+
+/// signature of a failure that is a fact about the endpoint's state (not about how long something took): such a
+/// first attempt stands, whatever a retry does
+const NO_SCTP: &str = "has no SCTP transport (data channels can never open)";
+fn state_fact(logic: &[String]) -> bool { logic.iter().any(|m| m.contains(NO_SCTP)) }
 
 // ------------------------------------------------------------------------------------ known, listed runtime findings
 /// Returns the finding class when this point's *runtime* failure matches a listed class exactly.
@@ -904,7 +923,7 @@ fn main() {
             let sv: Vec<u8> = std::env::var("C10_SCN").ok().map(|v| v.split_whitespace().filter_map(|x| x.parse().ok()).collect()).unwrap_or_default();
             let scn = if sv.len() == 3 { Scn { warmup_offer_on_answerer: sv[0] == 1, ans_dc: sv[1], ans_tracks_reversed: sv[2] == 1 } } else { Scn::default() };
             jobs_v = (0..rep).map(|_| Job { p, kind: "corpus", delay_ms: 0, scn }).collect();
-            let r = run_blocking(p, &base_tmo, 2);
+            let r = run_blocking(p, &Timeouts { scn, ..base_tmo.clone() }, 2);
             eprintln!("{}\n--- offer\n{}\n--- answer\n{}\n--- {:?}", p.json(), r.offer_sdp, r.answer_sdp, oracle(&p, &r));
             eprintln!("stage={} connected={} data={:?} rtp={:?} err={:?}", r.stage, r.connected, r.data_ok, r.rtp_ok, r.error);
         }
@@ -941,7 +960,9 @@ fn main() {
             let mut tries = 1;
             let mut first = None;
             let (mut l, mut rt) = oracle(&p, &r);
-            if (!l.is_empty() || !rt.is_empty()) && known_class(&p, &r, &rt).is_none() && kind != "repeat" {
+            // (debugging aid: C10_NORETRY=1 reports the first attempt of every point as it is)
+            if (!l.is_empty() || !rt.is_empty()) && known_class(&p, &r, &rt).is_none() && kind != "repeat" && std::env::var("C10_NORETRY").is_err()
+                && !state_fact(&l) {
                 // retry once before reporting (sockets / timers are runtime), with short timeouts
                 first = Some(format!("{} [{}]", l.iter().chain(rt.iter()).cloned().collect::<Vec<_>>().join("; "), r.diag.clone().unwrap_or_default()));
                 let tmo2 = Timeouts { answer_delay: tmo.answer_delay, scn: tmo.scn, ..retry_tmo.clone() };
@@ -949,19 +970,6 @@ fn main() {
                 tries = 2;
                 let (l2, rt2) = oracle(&p, &r2);
                 if l2.len() + rt2.len() <= l.len() + rt.len() { r = r2; l = l2; rt = rt2; }
-                // a failure that is only runtime-shaped (timeouts on a loaded machine) must repeat with
-                // GENEROUS timeouts before it counts: two more attempts, the last one after the other
-                // workers have had time to drain; a deterministic defect fails all of them
-                for extra in 0..2u64 {
-                    if (l.is_empty() && rt.is_empty()) || known_class(&p, &r, &rt).is_some() { break; }
-                    std::thread::sleep(Duration::from_secs(2 + 3 * extra));
-                    let tmo3 = Timeouts { gather: Duration::from_secs(15), connect: Duration::from_secs(30), deliver: Duration::from_secs(8),
-                                          deliver_data: Duration::from_secs(20), answer_delay: tmo.answer_delay, scn: tmo.scn };
-                    let r3 = run_blocking(p, &tmo3, rt_workers);
-                    tries += 1;
-                    let (l3, rt3) = oracle(&p, &r3);
-                    if l3.len() + rt3.len() <= l.len() + rt.len() { r = r3; l = l3; rt = rt3; }
-                }
             }
             if (!l.is_empty() || !rt.is_empty()) && known_class(&p, &r, &rt).is_none() { failed.fetch_add(1, Ordering::SeqCst); }
             results.lock().unwrap()[i] = Some((r, tries, first));
@@ -1008,7 +1016,7 @@ fn main() {
         let mut desc = json!({"point": p.json(), "answer_delay_ms": job.delay_ms,
             "scenario": {"warmup_offer_on_answerer": job.scn.warmup_offer_on_answerer, "answerer_inband_channel": (match job.scn.ans_dc { 1 => "before offer", 2 => "after offer", _ => "none" }),
                          "answerer_tracks_reversed": job.scn.ans_tracks_reversed, "answerer_channel_ok": r.ans_dc_ok}, "stage": r.stage, "connected": r.connected,
-            "connect_ms": r.connect_ms, "tries": tries, "first_try": first, "data_ok": r.data_ok, "data_ms": r.data_ms, "rtp_ok": r.rtp_ok,
+            "connect_ms": r.connect_ms, "tries": tries, "first_try": first, "data_ok": r.data_ok, "data_ms": r.data_ms, "sctp_transport_present": r.sctp_present, "rtp_ok": r.rtp_ok,
             "offerer": side_json(&r.off), "answerer": side_json(&r.ans), "error": r.error, "diag": r.diag});
         if fail.is_some() || known.is_some() {
             desc["offer_sdp"] = json!(r.offer_sdp);
